@@ -62,7 +62,7 @@ def scratch_dir(prefix="mtverif_"):
     return tempfile.mkdtemp(prefix=prefix, dir=base)
 
 
-def run_apalache(root, init, inv, length, timeout=900):
+def run_apalache(root, init, inv, length, timeout=900, next_=None):
     """apalache-mc check --init=<init> --inv=<inv> --length=<length> on a module of /verif/specs.
     Returns (ok, seconds, tail of the output); raises TLCFailure when the tool itself fails."""
     d = scratch_dir("mtverif_apa_")
@@ -71,8 +71,9 @@ def run_apalache(root, init, inv, length, timeout=900):
             if f.endswith(".tla"):
                 shutil.copy(os.path.join(SPECS, f), os.path.join(d, f))
         t0 = time.time()
-        p = subprocess.run(["apalache-mc", "check", "--init=" + init, "--inv=" + inv, "--length=%d" % length,
-                            "--out-dir=" + os.path.join(d, "out"), root + ".tla"], cwd=d, stdout=subprocess.PIPE,
+        p = subprocess.run(["apalache-mc", "check", "--init=" + init, "--inv=" + inv, "--length=%d" % length] +
+                           (["--next=" + next_] if next_ else []) +
+                           ["--out-dir=" + os.path.join(d, "out"), root + ".tla"], cwd=d, stdout=subprocess.PIPE,
                            stderr=subprocess.STDOUT, text=True, errors="replace", timeout=timeout)
         out = p.stdout
         if "EXITCODE: OK" in out:
